@@ -106,6 +106,7 @@ Verdict(r) ==
         pAgain == IF r.saveAgain = "same" THEN {} ELSE {M("prop.saveAgain", r.saveAgain, "")}
         pCycle == {M("prop.cycle2", r.cycle2[k][1], r.cycle2[k][2]) : k \in 1..Len(r.cycle2)}
     IN IF ~accOK THEN {M("access.unknownView", "", "")}
+       ELSE IF r.failed # <<>> THEN {M("prop.completes", r.failed[1], r.failed[2])}
        ELSE bAccess \cup f.bad \cup bStack \cup bAfter \cup bModel \cup bChanged \cup bLoss
             \cup pView \cup pBytes \cup pNoAcc \cup pHead \cup pMeta \cup pCache \cup pResave \cup pAgain \cup pCycle
 
